@@ -290,7 +290,7 @@ static void build_page(int kind, int mag, int page, int sub, unsigned ctrl, uint
   { char t[48]; snprintf(t, sizeof t, "ZSIMTEXT%03X Network News AB12:34:%02d", pgno, (int)r.below(r.chance(1, 8) ? 60 : 1)); memcpy(text, t, 32);
     if (r.chance(1, 10)) for (int i = 0; i < 32; i++) if (r.chance(1, 4)) text[i] = (uint8_t)r.below(128); }
   ttx::Packet hdr = ttx::header(mag, page, sub, ctrl, text);
-  auto nib_row = [&](int y, int lo, int hi) { uint8_t n[40]; for (auto& x : n) x = (uint8_t)(lo + r.below((uint64_t)(hi - lo + 1))); body.push_back(nibble_packet(mag, y, n)); };
+  auto nib_row = [&](int y, int lo, int hi) { uint8_t n[40] = {0}; for (auto& x : n) x = (uint8_t)(lo + r.below((uint64_t)(hi - lo + 1))); body.push_back(nibble_packet(mag, y, n)); };
   auto text_row = [&](int y, int style) { uint8_t c[40]; gen_row(r, style, c); body.push_back(ttx::row(mag, y, c)); };
   auto top_link = [&](uint8_t* n, int pg, int sb, int fn) { n[0] = (uint8_t)(pg >> 8); n[1] = (uint8_t)((pg >> 4) & 15); n[2] = (uint8_t)(pg & 15); n[3] = (uint8_t)((sb >> 12) & 15); n[4] = (uint8_t)((sb >> 8) & 15); n[5] = (uint8_t)((sb >> 4) & 15); n[6] = (uint8_t)(sb & 15); n[7] = (uint8_t)fn; };
   switch (kind) {
@@ -348,10 +348,10 @@ static void build_page(int kind, int mag, int page, int sub, unsigned ctrl, uint
       break;
     }
     case K_MOT: {
-      for (int y = 1; y <= 8; y++) if (r.chance(5, 6)) { uint8_t n[40]; for (int i = 0; i < 40; i += 2) { n[i] = (uint8_t)(r.chance(7, 8) ? 1 + r.below(2) : r.below(16)); n[i + 1] = (uint8_t)(r.chance(7, 8) ? 1 + r.below(2) : r.below(16)); } body.push_back(nibble_packet(mag, y, n)); }
+      for (int y = 1; y <= 8; y++) if (r.chance(5, 6)) { uint8_t n[40] = {0}; for (int i = 0; i < 40; i += 2) { n[i] = (uint8_t)(r.chance(7, 8) ? 1 + r.below(2) : r.below(16)); n[i + 1] = (uint8_t)(r.chance(7, 8) ? 1 + r.below(2) : r.below(16)); } body.push_back(nibble_packet(mag, y, n)); }
       for (int y = 9; y <= 14; y++) if (r.chance(1, 2)) nib_row(y, 0, r.chance(1, 2) ? 3 : 15);
       auto pop_row = [&](int y) {
-        uint8_t n[40];
+        uint8_t n[40] = {0};
         for (int i = 0; i < 4; i++) {
           int target = i == 0 ? L.gpop : L.pop[(i - 1) & 1];
           if (r.chance(1, 16)) target = rand_pgno(r);
@@ -368,7 +368,7 @@ static void build_page(int kind, int mag, int page, int sub, unsigned ctrl, uint
         body.push_back(nibble_packet(mag, y, n));
       };
       auto drcs_row = [&](int y) {
-        uint8_t n[40];
+        uint8_t n[40] = {0};
         for (int i = 0; i < 8; i++) { int target = i == 0 ? L.gdrcs : L.drcs[(i - 1) & 1]; if (r.chance(1, 8)) target = rand_pgno(r);
           n[i * 4] = (uint8_t)((target >> 8) & 7); n[i * 4 + 1] = (uint8_t)((target >> 4) & 15); n[i * 4 + 2] = (uint8_t)(target & 15); n[i * 4 + 3] = (uint8_t)r.below(16); }
         body.push_back(nibble_packet(mag, y, n));
@@ -397,12 +397,12 @@ static void build_page(int kind, int mag, int page, int sub, unsigned ctrl, uint
         return codes[r.below(sizeof codes / sizeof codes[0])];
       };
       for (int y = 1; y <= 8; y++) if (r.chance(5, 6)) {
-        uint8_t n[40]; int base = mag * 256 + (y - 1) * 0x20;
+        uint8_t n[40] = {0}; int base = mag * 256 + (y - 1) * 0x20;
         for (int i = 0; i < 20; i++) { int pg = base + (i < 10 ? i : 0x10 + i - 10); int c = code_for(pg); n[2 * i] = (uint8_t)(c & 15); n[2 * i + 1] = (uint8_t)(c >> 4); }
         body.push_back(nibble_packet(mag, y, n));
       }
       for (int y = 9; y <= 14; y++) if (r.chance(4, 6)) {
-        uint8_t n[40]; int base = mag * 256 + (y - 9) * 0x30;
+        uint8_t n[40] = {0}; int base = mag * 256 + (y - 9) * 0x30;
         for (int i = 0; i < 18; i++) { int pg = base + (i / 6) * 0x10 + 0x0A + i % 6; int c = code_for(pg); n[2 * i] = (uint8_t)(c & 15); n[2 * i + 1] = (uint8_t)(c >> 4); }
         n[36] = n[37] = n[38] = n[39] = (uint8_t)r.below(16);
         body.push_back(nibble_packet(mag, y, n));
@@ -413,7 +413,7 @@ static void build_page(int kind, int mag, int page, int sub, unsigned ctrl, uint
     case K_BTT: {
       for (int y = 1; y <= 20; y++) if (r.chance(3, 4)) nib_row(y, 0, r.chance(3, 4) ? 11 : 15);
       for (int y = 21; y <= 23; y++) if (y < 23 ? r.chance(5, 6) : r.chance(1, 3)) {
-        uint8_t n[40];
+        uint8_t n[40] = {0};
         for (int i = 0; i < 5; i++) {
           int which = (int)r.below(5);
           int pg = which == 0 ? L.ait : which == 1 ? L.mpt : which == 2 ? L.mptex : which == 3 ? L.ait : rand_pgno(r);
@@ -429,7 +429,7 @@ static void build_page(int kind, int mag, int page, int sub, unsigned ctrl, uint
       for (int y = 1; y <= 23; y++) if (r.chance(3, 4)) {
         ttx::Packet p; memset(&p, 0, sizeof p); ttx::mrag(p, mag, y);
         for (int e = 0; e < 2; e++) {
-          uint8_t n[8]; top_link(n, r.chance(7, 8) ? rand_pgno(r) : (int)r.below(0x1000), r.chance(1, 2) ? 0 : (int)r.below(0x10000), (int)r.below(4));
+          uint8_t n[8] = {0}; top_link(n, r.chance(7, 8) ? rand_pgno(r) : (int)r.below(0x1000), r.chance(1, 2) ? 0 : (int)r.below(0x10000), (int)r.below(4));
           for (int i = 0; i < 8; i++) p.b[2 + e * 20 + i] = tx::ham84(n[i]);
           const char* w = kWords[r.below(sizeof kWords / sizeof kWords[0])];
           for (int i = 0; i < 12; i++) p.b[2 + e * 20 + 8 + i] = tx::odd_parity((uint8_t)(i < (int)strlen(w) ? w[i] : (r.chance(1, 20) ? r.below(128) : 0x20)));
@@ -441,7 +441,7 @@ static void build_page(int kind, int mag, int page, int sub, unsigned ctrl, uint
     case K_MPT: for (int y = 1; y <= 23; y++) if (r.chance(3, 4)) nib_row(y, 0, r.chance(3, 4) ? 9 : 15); break;
     case K_MPTEX: {
       for (int y = 1; y <= 23; y++) if (r.chance(3, 4)) {
-        uint8_t n[40];
+        uint8_t n[40] = {0};
         for (int i = 0; i < 5; i++) top_link(n + i * 8, r.chance(7, 8) ? rand_pgno(r) : (int)r.below(0x1000), (int)r.below(0x10000), (int)r.below(16));
         body.push_back(nibble_packet(mag, y, n));
       }
